@@ -3,6 +3,7 @@ package main
 import (
 	"fmt"
 	"os"
+	"strings"
 	"go/constant"
 	"go/token"
 	"go/types"
@@ -32,6 +33,7 @@ type Exec struct {
 	entryMeasure Term
 	heapElemType map[string]types.Type
 	inHandler  int // >0 while deferred calls are being executed
+	instDone   map[string]bool
 	qhyps      []qhyp // quantified hypotheses that can be instantiated at goal constants
 }
 
@@ -48,6 +50,27 @@ func (ex *Exec) instantiateHyps(sk map[string]SVal) {
 	}
 	for _, h := range ex.qhyps {
 		if t, ok := h.inst(sk); ok {
+			ex.cx.assume(implies(h.guard, t))
+		}
+	}
+}
+
+// instantiateAtIndex: eager instantiation of the single-variable quantified
+// hypotheses at an index the code touches (element of a slice of structs).
+func (ex *Exec) instantiateAtIndex(idx Term) {
+	if ex.instDone == nil {
+		ex.instDone = map[string]bool{}
+	}
+	if len(ex.instDone) > 400 || strings.Contains(idx.S, "!q") {
+		return
+	}
+	for i, h := range ex.qhyps {
+		key := fmt.Sprintf("%d|%s", i, idx.S)
+		if ex.instDone[key] {
+			continue
+		}
+		ex.instDone[key] = true
+		if t, ok := h.inst(map[string]SVal{"*": {V: Sc{idx}, T: types.Typ[types.Int]}}); ok {
 			ex.cx.assume(implies(h.guard, t))
 		}
 	}
@@ -457,6 +480,23 @@ func (fr *Frame) execBlock(b *ssa.BasicBlock, st *State, incoming map[*ssa.Basic
 					a.F = append(a.F, fr.val(r))
 				}
 				rv = a
+			}
+			if fr.isTop && ex.fc != nil && fr.ex.inHandler == 0 {
+				for _, cl := range ex.fc.AtReturn {
+					env := ex.specEnv(fr, st, ex.entry)
+					nUnsup := len(ex.cx.unsupported)
+					g := env.evalBool(cl.Expr)
+					if len(ex.cx.unsupported) != nUnsup {
+						// a local of the clause is not in scope at this return
+						ex.cx.unsupported = ex.cx.unsupported[:nUnsup]
+						continue
+					}
+					label := cl.Label
+					if label == "" {
+						label = fmt.Sprintf("L%d", cl.Line)
+					}
+					ex.oblige("atreturn", label, st, g, x.Pos(), cl.Props)
+				}
 			}
 			fr.normal = append(fr.normal, exitRec{st, rv})
 			return
@@ -936,6 +976,9 @@ func (fr *Frame) indexAddr(st *State, x *ssa.IndexAddr) Val {
 		s := base.(Sc).T
 		s = ex.cx.name("s", s)
 		fr.boundsCheck(st, idx, ex.slen(s), x.Pos())
+		if _, scalar := ex.cx.sortOf(t.Elem()); !scalar && ex.cx.mode == "int" {
+			ex.instantiateAtIndex(idx)
+		}
 		return ElemAddrV{Base: app(SRef, "sarr", s), Idx: ex.iadd(ex.soff(s), idx), Elem: t.Elem()}
 	case *types.Pointer: // *array
 		at := t.Elem().Underlying().(*types.Array)
@@ -1125,24 +1168,45 @@ func (ex *Exec) zeroArray(st *State, ref Term, et types.Type) {
 		ex.setHeap(st, name, ex.cx.name("h", store(h, ref, c)))
 		return
 	}
-	// array of structs: every field of every element is zero
+	// array of structs: every (nested) field of every element is zero
 	if stt, ok := et.Underlying().(*types.Struct); ok {
-		for i := 0; i < stt.NumFields(); i++ {
-			f := stt.Field(i)
-			fs, ok := ex.cx.sortOf(f.Type())
-			if !ok {
-				ex.cx.unsup("nested aggregate in array element %s", et)
-				continue
+		is := ex.cx.intS()
+		var rec func(stt *types.Struct, addr func(i string) string, depth int)
+		rec = func(stt *types.Struct, addr func(i string) string, depth int) {
+			for k := 0; k < stt.NumFields(); k++ {
+				f := stt.Field(k)
+				if sub, ok := f.Type().Underlying().(*types.Struct); ok {
+					id := ex.cx.fieldID(f)
+					rec(sub, func(i string) string { return fmt.Sprintf("(fld %s %d)", addr(i), id) }, depth+1)
+					continue
+				}
+				fs, ok := ex.cx.sortOf(f.Type())
+				if !ok {
+					ex.cx.unsup("array-typed field in array element %s", et)
+					continue
+				}
+				name := ex.fieldHeapName(f)
+				h := ex.heap(st, name, arrSort(SRef, fs))
+				nh := ex.freshHeap("hz_", name, h.Sort)
+				a := addr("i!z")
+				ex.cx.assume(Term{fmt.Sprintf("(forall ((i!z %s)) (! (= (select %s %s) %s) :pattern ((select %s %s))))", is, nh.S, a, ex.zeroTerm(fs).S, nh.S, a), SBool})
+				// every other cell keeps its value: cells whose element root is not this array
+				root := "r!z"
+				for d := 0; d < depth; d++ {
+					root = "(fbase " + root + ")"
+				}
+				shape := ""
+				cur := "r!z"
+				for d := 0; d < depth; d++ {
+					shape += fmt.Sprintf("((_ is fld) %s) ", cur)
+					cur = "(fbase " + cur + ")"
+				}
+				inArr := fmt.Sprintf("(and %s((_ is elem) %s) (= (ebase %s) %s))", shape, root, root, ref.S)
+				ex.cx.assume(Term{fmt.Sprintf("(forall ((r!z Ref)) (! (=> (not %s) (= (select %s r!z) (select %s r!z))) :pattern ((select %s r!z))))", inArr, nh.S, h.S, nh.S), SBool})
+				ex.setHeap(st, name, nh)
 			}
-			name := ex.fieldHeapName(f)
-			h := ex.heap(st, name, arrSort(SRef, fs))
-			nh := ex.freshHeap("hz_", name, h.Sort)
-			is := ex.cx.intS()
-			// nh agrees with h except at elem(ref, *), where it is zero
-			ex.cx.assume(Term{fmt.Sprintf("(forall ((i!z %s)) (! (= (select %s (elem %s i!z)) %s) :pattern ((select %s (elem %s i!z)))))", is, nh.S, ref.S, ex.zeroTerm(fs).S, nh.S, ref.S), SBool})
-			ex.cx.assume(Term{fmt.Sprintf("(forall ((r!z Ref)) (! (=> (not (and ((_ is elem) r!z) (= (ebase r!z) %s))) (= (select %s r!z) (select %s r!z))) :pattern ((select %s r!z))))", ref.S, nh.S, h.S, nh.S), SBool})
-			ex.setHeap(st, name, nh)
 		}
+		rec(stt, func(i string) string { return fmt.Sprintf("(elem %s %s)", ref.S, i) }, 0)
 		return
 	}
 	ex.cx.unsup("make of slice of %s", et)
